@@ -286,9 +286,46 @@ def corpus():
     return [f11, f11b, f13, mix, pers, gf1, gf1, gf2, gf2]
 
 
+def gen_genfail(rng):
+    """Oracle-only stream (generators with products are outside the model): a generator that raises — before or after
+    writing its product — with a chain of dependants, independent tasks, optionally another failing task and a failure limit."""
+    f0 = pa.pat_id(0, "f")
+    pats = {str(f0): {"dir": 0, "kind": "f"}}
+    tasks, inputs = [], {"100": rng.randint(1, 4)}
+    with_prod = rng.random() < 0.7
+    if with_prod:
+        tasks.append(_t(1, cnt=100, pprods=[f0]))
+    node = [200]
+
+    def nn():
+        node[0] += 1
+        return node[0]
+    gp = nn()
+    tasks.append(_t(2, pdeps=[f0] if with_prod or rng.random() < 0.5 else [], gen=True, fails=rng.choice([True, "late", "late"]), prods=[gp]))
+    prev, tid = gp, 3
+    for _ in range(rng.randint(1, 3)):
+        q = nn()
+        tasks.append(_t(tid, deps=[prev], prods=[q]))
+        prev, tid = q, tid + 1
+    for _ in range(rng.randint(0, 2)):
+        i = nn()
+        inputs[str(i)] = rng.randint(1, 9)
+        tasks.append(_t(tid, deps=[i], prods=[nn()], fails=rng.random() < 0.3))
+        tid += 1
+    rng.shuffle(tasks)
+    h = {"tag": "genfail", "nomodel": True, "spec": {"pats": pats, "tasks": tasks, "perfile": {"2": 20000}, "inputs": inputs, "version": 0},
+         "steps": [["build"], ["build"]] if with_prod else [["write", 1000, 3], ["build"], ["build"]]}
+    mf = rng.choice([None, None, 1, 1, 2])
+    if mf is not None:
+        h["kw"] = {"max_failures": mf}
+    return h
+
+
 def histories(ctx):
     rng = ctx.rng
     hs = corpus()
+    for _ in range(ctx.scale(6, 60)):
+        hs.append(gen_genfail(rng))
     for _ in range(ctx.scale(50, 600)):
         spec = pa.gen_spec(rng)
         hs.append({"tag": "rand", "spec": spec, "steps": pa.gen_steps(rng, spec)})
